@@ -50,7 +50,7 @@ def bounds(tier):
         "batch": [2, 3] if q else [2, 3, 4], "done_masks": "all 2^B", "rewards": "2 vectors from {-1,0,2}",
         "gamma": [0.0, 0.99] if q else [0.0, 0.5, 0.99, 1.0], "tau": [0.5, 1.0] if q else [0.01, 0.5, 1.0],
         "policy_freq": [1, 2] if q else [1, 2, 3], "steps": 2 if q else 3, "start_states": STARTS,
-        "obs_kinds": ["vector"] if q else ["vector", "image", "discrete"],
+        "obs_kinds": ["vector"] if q else ["vector", "image"],
     }
 
 
